@@ -13,7 +13,7 @@ VERIF = '/verif'
 REPO = os.environ.get('VERIF_REPO', '/repo')
 BUILD = os.path.join(VERIF, 'build')
 COQ = os.path.join(VERIF, 'coq')
-LIBDIR = os.path.join(BUILD, 'repo')
+LIBDIR = os.environ.get('VERIF_IMPL_BUILD', os.path.join(BUILD, 'repo'))
 
 FORBIDDEN = r'\b(Admitted|admit|Axiom|Axioms|Parameter|Parameters|Conjecture|Admit Obligations)\b|Unset Guard|bypass_check|type-in-type|impredicative-set|Unset Universe Checking|Unset Positivity'
 
@@ -77,6 +77,8 @@ class Ctx:
         print('[%s %6.1fs] %s' % (self.pid, time.time() - self.t0, msg), flush=True)
     # ---------------------------------------------------------------- implementation build
     def build_repo(self):
+        if os.environ.get('VERIF_SKIP_IMPL_BUILD'):
+            self.log('implementation library build skipped (VERIF_SKIP_IMPL_BUILD); headers from %s' % REPO); return
         rc, out, err = sh([os.path.join(VERIF, 'bin', 'build_repo')], timeout=3600)
         if rc != 0:
             self.log('implementation build FAILED:\n' + out[-3000:] + err[-3000:])
